@@ -3,8 +3,10 @@ package sim
 
 import (
 	"verif/sim/mods/amm"
+	"verif/sim/mods/sys"
 )
 
 func init() {
 	amm.Register()
+	sys.Register()
 }
